@@ -8,7 +8,7 @@ EXPLANATION = ("Bounded symbolic checking (engine S, REAL mode) of RescaledHmmLi
 FUNCTIONS = ["RescaledHmmLikelihood::{ctor,computeForward_,computeBackward_,setBreakPoints,fireParameterChanged,getLogLikelihood,getValue,getHiddenStatesPosteriorProbabilities,getHiddenStatesPosteriorProbabilitiesForASite,getLikelihoodForASite,getLikelihoodForEachSite}",
              "LowMemoryRescaledHmmLikelihood::{ctor,computeForward_ (every chunk size),setBreakPoints,fireParameterChanged,getLogLikelihood}", "LogsumHmmLikelihood::{ctor,computeForward_,computeBackward_,posterior and per-site queries}", "NumTools::logsum",
              "AutoCorrelationTransitionMatrix::{getPij,Pij,getEquilibriumFrequencies,fireParameterChanged}", "FullHmmTransitionMatrix::{getPij,getEquilibriumFrequencies,fireParameterChanged} (concrete parameter values)"]
-BOUNDS = ("2 hidden states, 1-2 sites, every subset of break points, chunk sizes 1..sites+1, all positive transition weights and emissions (reals); one parameter update (an emission entry) after a full round of queries, in both update orders; "
+BOUNDS = ("2 hidden states, 1-2 sites (low-memory algorithm alone: also 3 sites), every subset of break points, chunk sizes 1..sites+1, all positive transition weights and emissions (reals); one parameter update (an emission entry) after a full round of queries, in both update orders; "
           "built-in models: 2-3 states, autocorrelation parameters symbolic in (0.01,0.99) with the matrix/equilibrium queries in either order and before/after the update; full model at two concrete parameter sets")
 OUTSIDE = ["sequences of 3 or more sites and 3 or more hidden states (measured: the rational functions leave the solver's reach - single configurations of 3 sites take 3 min with over-approximated branches)", "zero transition or emission entries (log-space code takes log 0)",
            "first and second derivatives of the log-likelihood", "IEEE rounding / underflow for emissions down to 1e-200 (exact real arithmetic)", "stationarity of the full model's equilibrium vector for symbolic parameters (it is row 0 of P^256)"]
@@ -20,6 +20,8 @@ TECHNIQUE = TECH + " (log-space arithmetic kept exact through exp/log product id
 E = {"SYM_ABS_NOFORK": "1"}
 JOBS = [
     Job("rescaled-lowmemory", "C13.cpp", ["HLO=0", "HHI=0", "LMAX=2"], env=E, budget_s=300, desc="rescaled and low-memory (every chunk size) likelihood = path enumeration; posteriors; per-site likelihoods; answers after a parameter update"),
+    Job("lowmemory-3sites", "C13.cpp", ["HLO=0", "HHI=0", "LMAX=3", "LOWMEM_ONLY"], fix="sites=3 break1=0 break2=0", env=E, budget_s=400, tiers=("quick",), desc="low-memory algorithm alone on 3 sites without break points, every chunk size (a partly filled last chunk after a flush needs 3 sites)"),
+    Job("lowmemory-3sites-all", "C13.cpp", ["HLO=0", "HHI=0", "LMAX=3", "LOWMEM_ONLY"], fix="sites=3", env=E, budget_s=1800, tiers=("thorough",), desc="low-memory algorithm alone on 3 sites, every break-point subset and chunk size"),
     Job("logsum", "C13.cpp", ["HLO=1", "HHI=1", "LMAX=2", "PARAM_AB"], env=E, budget_s=300, desc="log-sum algorithm: likelihood = path enumeration, posteriors, per-site likelihoods (every ordering of the log-space operands is a path)"),
     Job("transition-models", "C13.cpp", ["HLO=2", "HHI=2", "LMAX=2"], env=E, budget_s=300, desc="built-in transition models: row-stochastic, equilibrium vector sums to one and is stationary, independent of the order of earlier queries"),
 ]
